@@ -329,3 +329,23 @@ M("C13", "deserialised dict attributes alias one object", "xeofs/preprocessing/t
   edits=[("        # Set attributes\n        for key, attr in dt.attrs.items():", "        # Set attributes\n        data = {}\n        for key, attr in dt.attrs.items():"), ("            elif attr == \"_is_tree\":\n                data = {}\n", "            elif attr == \"_is_tree\":\n")])
 M("C15", "seed forwarded only when truthy", DEC, '                "n_components": self.n_modes_precompute,\n                "random_state": self.random_state,\n            }\n', '                "n_components": self.n_modes_precompute,\n            }\n            if self.random_state:\n                solver_kwargs["random_state"] = self.random_state\n', "RNG.solver")
 B("C15", "seed set by item assignment", DEC, '                "n_components": self.n_modes_precompute,\n                "random_state": self.random_state,\n            }\n', '                "n_components": self.n_modes_precompute,\n            }\n            solver_kwargs["random_state"] = self.random_state\n')
+
+# ---------------------------------------------------------------- C17
+ST = "xeofs/preprocessing/stacker.py"
+PR = "xeofs/preprocessing/preprocessor.py"
+M("C17", "dimension validator removed from Scaler.transform", SC, '        self._verify_input(X, "X")\n        self._verify_dims(X)\n', '        self._verify_input(X, "X")\n', "GUARD.dims")
+M("C17", "dimension validator after first arithmetic", SC, '        self._verify_dims(X)\n\n        params = self.get_params()\n\n        if params["with_center"]:\n            X = X - self.mean_\n', '        params = self.get_params()\n\n        if params["with_center"]:\n            X = X - self.mean_\n        self._verify_dims(X)\n', "GUARD.dims")
+M("C17", "stacker coordinate check not called", ST, "        self._validate_transform_feature_coords(X)\n\n        # Stack data", "        # Stack data", "GUARD.role.feature_coords.called")
+M("C17", "stacker coordinate check never raises", ST, "        if not all(coords_are_equal):\n            raise ValueError(\n                \"Data to be transformed has different coordinates than the data used to fit.\"\n            )", "        if not all(coords_are_equal):\n            pass", "GUARD.role.feature_coords")
+M("C17", "rank check removed", DEC, "        if self.n_modes_precompute > rank:\n            raise ValueError(\n                f\"n_modes must be less than or equal to the rank of the dataset (rank = {rank}).\"\n            )\n", "", "GUARD.role.rank")
+M("C17", "alpha check removed", WH, "        if alpha < 0:\n            raise ValueError(\"`alpha` must be greater than or equal to 0\")\n", "", "GUARD.role.alpha")
+M("C17", "item count check removed", PR, "        if len(X) != self.n_data:\n            raise ValueError(\n                f\"number of data objects passed should match number of data objects used for fitting\"\n                f\"len(data objects)={len(X)} and \"\n                f\"len(data objects used for fitting)={self.n_data}\"\n            )\n", "", "GUARD.role.item_count")
+M("C17", "solver default removed", SVD, '            case _:\n                raise ValueError(\n                    f"Unrecognized solver \'{self.solver}\'. "\n                    "Valid options are \'auto\', \'full\', and \'randomized\'."\n                )\n', "", "GUARD.role.solver")
+M("C17", "scaler type check after use", SC, '        self._verify_input(X, "data")\n\n        self.sample_dims = sample_dims', '        self.sample_dims = sample_dims', "GUARD.type.first_stage")
+M("C17", "n_modes sanity not called in _SVD", SVD, "        sanity_check_n_modes(n_modes)\n        self.is_based_on_variance = True if isinstance(n_modes, float) else False", "        self.is_based_on_variance = True if isinstance(n_modes, float) else False", "GUARD.role.n_modes.called")
+M("C17", "n_modes sanity accepts zero", "xeofs/utils/sanity_checks.py", "            if n_modes < 1:\n                raise ValueError(\"If integer, n_modes must be greater than 0\")", "            pass", "GUARD.role.n_modes.sanity")
+M("C17", "cross transform accepts nothing", BC, "        if X is None and Y is None:\n            raise ValueError(\"Either X or Y must be provided.\")\n\n        if X is not None:\n            validate_input_type(X)", "        if X is not None:\n            validate_input_type(X)", "GUARD.role.x_or_y")
+M("C17", "dim argument not validated", BS, "        self.sample_dims = convert_to_dim_type(dim)", "        self.sample_dims = dim", "GUARD.role.dim_type.called")
+M("C17", "transform dims check not called", ST, "        self._validate_transform_dimensions(X)\n", "", "GUARD.role.transform_dims.called")
+B("C17", "type validation via local alias order", BS, "        validate_input_type(X)\n        if weights is not None:\n            validate_input_type(weights)", "        if weights is not None:\n            validate_input_type(weights)\n        validate_input_type(X)")
+B("C17", "rank check with >=+1", DEC, "        if self.n_modes_precompute > rank:", "        if rank < self.n_modes_precompute:")
